@@ -86,7 +86,7 @@ func obligationQuery(o *Obligation) (string, string) {
 		if len(terms) > 0 {
 			budget := 160
 			for _, a := range o.Gen.S.asserts {
-				if !strings.Contains(a, "(forall ((|q!") {
+				if !strings.Contains(a, "(forall ((|q!") && !strings.Contains(a, "(forall ((j Int))") {
 					continue
 				}
 				for _, inst := range groundInstances(a, terms, &budget) {
